@@ -4,8 +4,8 @@
 // Deciding step: complete operand-lattice sweeps on the real MockNamedValue.
 //   intpairs   36 ordered integer type pairs x boundary lattice^2 x object pre-states^2 -> equals both ways
 //   scalars    bool / void* / const void* / function pointer, all value pairs of each type
-//   strings    all pairs of strings over a 3 symbol alphabet (length <= 3), own exact-size heap copies
-//   membufs    all pairs of buffers over {00,01,ff} (length <= 3) + NULL/0, exact-size heap copies
+//   strings    all pairs of strings over a 3 symbol alphabet (length <= 3), own exact-size heap copies; all suffix pairs inside one block
+//   membufs    all pairs of buffers over {00,01,ff} (length <= 3) + NULL/0, exact-size heap copies; all (offset 0/1, length) pairs inside one block
 //   doubles    (value, tolerance) x (value, tolerance) over an IEEE boundary lattice
 //   crosstype  specimens of all 13 types (sharing bit patterns on purpose), all ordered pairs of different types
 //   getters    every stored integer x every integer getter, inside a real test (fixture)
@@ -332,36 +332,65 @@ static void run_all(const bool T, const std::string& X) {
         std::vector<char*> ca, cb;
         for (auto& w : W) { ca.push_back(heap_str(w)); cb.push_back(heap_str(w)); }
         const long NW = (long)W.size();
-        vf::info("strings" + X + ".bound", vf::fmt("all %ld x %ld pairs of strings over {a,b,\\xff} of length <= 3, each in its own exact-size heap copy (plus, for identical content, the same pointer on both sides) x %d pre-states per side; both directions", NW, NW, NPRE));
-        struct C { int i, j, shared; };
+        // aliasing: both values point into ONE block (every suffix pair of every string of length <= 4)
+        std::vector<std::string> W4 = words(std::string("ab\xff"), 4);
+        std::vector<char*> c4; for (auto& w : W4) c4.push_back(heap_str(w));
+        struct C { int i, j, shared; };          // shared: 0 own copies, 1 same pointer, 2 two suffixes of block i (offsets j / 8 and j % 8)
         std::vector<C> cases;
         for (int i = 0; i < NW; i++) for (int j = 0; j < NW; j++) { cases.push_back({i, j, 0}); if (i == j) cases.push_back({i, j, 1}); }
+        long nalias = 0;
+        for (int b = 0; b < (int)W4.size(); b++) for (int oa = 0; oa <= (int)W4[b].size(); oa++) for (int ob = 0; ob <= (int)W4[b].size(); ob++) { cases.push_back({b, oa * 8 + ob, 2}); nalias++; }
+        vf::info("strings" + X + ".bound", vf::fmt("all %ld x %ld pairs of strings over {a,b,\\xff} of length <= 3, each in its own exact-size heap copy (plus, for identical content, the same pointer on both sides); "
+                                                   "aliasing: every ordered pair of suffixes (incl. the empty one) of every string of length <= 4 inside ONE heap block (%ld pairs: same pointer, pointer into the middle of the other string); x %d pre-states per side; both directions", NW, NW, nalias, NPRE));
         vf::section_index("strings" + X, (long)cases.size() * NPRE * NPRE, [&](long idx) {
             vf::Radix r(idx);
             int pa = (int)r.take(NPRE), pb = (int)r.take(NPRE);
             const C& c = cases[r.take((long)cases.size())];
-            const int i = c.i, j = c.j, shared = c.shared;
-            Val x = vstr(ca[i], ("\"" + vf::esc(W[i]) + "\"").c_str()), y = vstr(shared ? ca[j] : cb[j], ("\"" + vf::esc(W[j]) + "\"" + (shared ? "(same pointer)" : "")).c_str());
+            std::string A, B; const char *qa, *qb; std::string na, nb; const char* cls;
+            if (c.shared == 2) {
+                int oa = c.j / 8, ob = c.j % 8;
+                A = W4[c.i].substr(oa); B = W4[c.i].substr(ob); qa = c4[c.i] + oa; qb = c4[c.i] + ob;
+                na = vf::fmt("\"%s\"=blk+%d", vf::esc(A).c_str(), oa); nb = vf::fmt("\"%s\"=blk+%d of the same block \"%s\"", vf::esc(B).c_str(), ob, vf::esc(W4[c.i]).c_str());
+                cls = oa == ob ? "alias-same-pointer" : "alias-suffix-of-other";
+            } else {
+                A = W[c.i]; B = W[c.j]; qa = ca[c.i]; qb = c.shared ? ca[c.j] : cb[c.j];
+                na = "\"" + vf::esc(A) + "\""; nb = "\"" + vf::esc(B) + "\"" + (c.shared ? "(same pointer)" : "");
+                cls = c.shared ? "same-pointer" : "other-storage";
+            }
+            Val x = vstr(qa, na.c_str()), y = vstr(qb, nb.c_str());
             bool ab, ba; both_ways(x, pa, y, pb, ab, ba);
-            bool want = W[i] == W[j];
+            bool want = A == B;
             if (vf::want_sample()) vf::sample(pair_text(x, pa, y, pb) + vf::fmt(" -> %d/%d", ab, ba));
             if (ab != want || ba != want) vf::fail(want ? "equals/strings/same-content-reported-different" : "equals/strings/different-content-reported-equal", pair_text(x, pa, y, pb) + vf::fmt(": a.equals(b)=%d b.equals(a)=%d, expected %d", ab, ba, want));
-            bool prefix = !want && (W[i].compare(0, W[j].size(), W[j]) == 0 || W[j].compare(0, W[i].size(), W[i]) == 0);
-            bool samelen = !want && W[i].size() == W[j].size();
-            vf::outcome(vf::fmt("%s -> %d", want ? (shared ? "same-pointer" : "same-content-other-storage") : prefix ? "prefix" : samelen ? "same-length" : "differ", ab));
-            if ((want && !shared) || prefix || samelen) vf::count("nontrivial");
+            bool prefix = !want && (A.compare(0, B.size(), B) == 0 || B.compare(0, A.size(), A) == 0);
+            bool samelen = !want && A.size() == B.size();
+            vf::outcome(vf::fmt("%s %s -> %d", cls, want ? "same-content" : prefix ? "prefix" : samelen ? "same-length" : "differ", ab));
+            if ((want && qa != qb) || prefix || samelen || (c.shared == 2 && qa != qb)) vf::count("nontrivial");
         });
-        vf::require_outcomes("strings" + X, 5);
+        vf::require_outcomes("strings" + X, 8);
     }
 
     // ================================================================ membufs
+    auto hex = [](const std::string& s) { std::string o = "["; char b[4]; for (unsigned char c : s) { snprintf(b, sizeof b, "%02x", c); o += b; } return o + "]"; };
+    // aliasing cases shared by membufs and api_param: both values lie in ONE exact-size heap block (all blocks over
+    // {00,01,ff} of length <= 4): start offsets 0/1 and every length that fits, on both sides
+    std::vector<std::string> MB4 = words(std::string("\x00\x01\xff", 3), 4);
+    std::vector<unsigned char*> mb4; for (auto& w : MB4) mb4.push_back(heap_mem(w));
+    struct MA { int blk, oa, la, ob, lb; };
+    std::vector<MA> malias;
+    for (int b = 0; b < (int)MB4.size(); b++) {
+        const int L = (int)MB4[b].size();
+        for (int oa = 0; oa <= 1 && oa <= L; oa++) for (int la = 0; oa + la <= L; la++)
+            for (int ob = 0; ob <= 1 && ob <= L; ob++) for (int lb = 0; ob + lb <= L; lb++) malias.push_back({b, oa, la, ob, lb});
+    }
+    auto alias_class = [](const MA& m) { return m.oa == m.ob ? (m.la == m.lb ? "alias-same-start-same-length" : "alias-same-start-other-length") : (m.la == m.lb ? "alias-other-start-same-length" : "alias-other-start-other-length"); };
+    std::vector<std::string> MW = words(std::string("\x00\x01\xff", 3), 3);
+    std::vector<unsigned char*> mca, mcb;
+    for (auto& w : MW) { mca.push_back(heap_mem(w)); mcb.push_back(heap_mem(w)); }
     {
-        std::vector<std::string> W = words(std::string("\x00\x01\xff", 3), 3);
-        std::vector<unsigned char*> ca, cb;
-        for (auto& w : W) { ca.push_back(heap_mem(w)); cb.push_back(heap_mem(w)); }
+        const std::vector<std::string>& W = MW;
         const long NW = (long)W.size();
-        // variant 0: own copies; 1: same pointer (i == j only); 2: a NULL pointer for the empty buffers (length 0 only)
-        vf::info("membufs" + X + ".bound", vf::fmt("all %ld x %ld pairs of buffers over {00,01,ff} of length <= 3, each in its own exact-size heap block (length 0: a block with no addressable byte; variants: same pointer for identical content, NULL for empty buffers) x %d pre-states per side; both directions", NW, NW, NPRE));
+        // variant 0: own copies; 1: same pointer (i == j only); 2: a NULL pointer for the empty buffers (length 0 only); 3: aliasing case i of `malias`
         struct C { int i, j, var; };
         std::vector<C> cases;
         for (int i = 0; i < NW; i++) for (int j = 0; j < NW; j++) {
@@ -369,25 +398,37 @@ static void run_all(const bool T, const std::string& X) {
             if (i == j) cases.push_back({i, j, 1});
             if (W[i].empty() || W[j].empty()) cases.push_back({i, j, 2});
         }
+        for (int k = 0; k < (int)malias.size(); k++) cases.push_back({k, 0, 3});
+        vf::info("membufs" + X + ".bound", vf::fmt("all %ld x %ld pairs of buffers over {00,01,ff} of length <= 3, each in its own exact-size heap block (length 0: a block with no addressable byte; variants: same pointer for identical content, NULL for empty buffers); "
+                                                   "aliasing: both buffers inside ONE exact-size block, for every block over {00,01,ff} of length <= 4 every (start offset 0/1, length that fits) on each side (%zu pairs: same start with different lengths incl. 0, same length with overlapping different starts, same start and length); "
+                                                   "x %d pre-states per side; both directions", NW, NW, malias.size(), NPRE));
         vf::section_index("membufs" + X, (long)cases.size() * NPRE * NPRE, [&](long idx) {
             vf::Radix r(idx);
             int pa = (int)r.take(NPRE), pb = (int)r.take(NPRE);
             const C& c = cases[r.take((long)cases.size())];
-            const int i = c.i, j = c.j, var = c.var;
-            const unsigned char* pi = ca[i]; const unsigned char* pj = var == 1 ? ca[j] : cb[j];
-            if (var == 2) { if (W[i].empty()) pi = nullptr; if (W[j].empty()) pj = nullptr; }
-            auto hex = [](const std::string& s) { std::string o = "["; char b[4]; for (unsigned char c : s) { snprintf(b, sizeof b, "%02x", c); o += b; } return o + "]"; };
-            Val x = vmem(pi, W[i].size(), (hex(W[i]) + (pi ? "" : "@NULL")).c_str()), y = vmem(pj, W[j].size(), (hex(W[j]) + (pj ? "" : "@NULL") + (var == 1 ? "(same pointer)" : "")).c_str());
+            std::string A, B; const unsigned char *pi, *pj; std::string na, nb; std::string cls;
+            if (c.var == 3) {
+                const MA& m = malias[c.i];
+                A = MB4[m.blk].substr(m.oa, m.la); B = MB4[m.blk].substr(m.ob, m.lb); pi = mb4[m.blk] + m.oa; pj = mb4[m.blk] + m.ob;
+                na = hex(A) + vf::fmt("=blk+%d", m.oa); nb = hex(B) + vf::fmt("=blk+%d of the same block ", m.ob) + hex(MB4[m.blk]);
+                cls = alias_class(m);
+            } else {
+                A = W[c.i]; B = W[c.j]; pi = mca[c.i]; pj = c.var == 1 ? mca[c.j] : mcb[c.j];
+                if (c.var == 2) { if (A.empty()) pi = nullptr; if (B.empty()) pj = nullptr; }
+                na = hex(A) + (pi ? "" : "@NULL"); nb = hex(B) + (pj ? "" : "@NULL") + (c.var == 1 ? "(same pointer)" : "");
+                cls = c.var == 1 ? "same-pointer" : c.var == 2 ? "other-storage(NULL,0)" : "other-storage";
+            }
+            Val x = vmem(pi, A.size(), na.c_str()), y = vmem(pj, B.size(), nb.c_str());
             bool ab, ba; both_ways(x, pa, y, pb, ab, ba);
-            bool want = W[i] == W[j];
+            bool want = A == B;
             if (vf::want_sample()) vf::sample(pair_text(x, pa, y, pb) + vf::fmt(" -> %d/%d", ab, ba));
             if (ab != want || ba != want) vf::fail(want ? "equals/buffers/same-length-and-content-reported-different" : "equals/buffers/different-length-or-content-reported-equal", pair_text(x, pa, y, pb) + vf::fmt(": a.equals(b)=%d b.equals(a)=%d, expected %d", ab, ba, want));
-            bool prefix = !want && (W[i].compare(0, W[j].size(), W[j]) == 0 || W[j].compare(0, W[i].size(), W[i]) == 0);
-            bool samelen = !want && W[i].size() == W[j].size();
-            vf::outcome(vf::fmt("%s%s -> %d", want ? (var == 1 ? "same-pointer" : "same-content-other-storage") : prefix ? "prefix-other-length" : samelen ? "same-length" : "differ", var == 2 ? "(NULL,0)" : "", ab));
-            if ((want && var != 1) || prefix || samelen) vf::count("nontrivial");
+            bool prefix = !want && (A.compare(0, B.size(), B) == 0 || B.compare(0, A.size(), A) == 0);
+            bool samelen = !want && A.size() == B.size();
+            vf::outcome(vf::fmt("%s %s -> %d", cls.c_str(), want ? "same-content" : prefix ? "prefix-other-length" : samelen ? "same-length" : "differ", ab));
+            if ((want && c.var != 1 && !(c.var == 3 && pi == pj)) || prefix || samelen) vf::count("nontrivial");
         });
-        vf::require_outcomes("membufs" + X, 6);
+        vf::require_outcomes("membufs" + X, 12);
     }
 
     // ================================================================ doubles
@@ -502,41 +543,58 @@ static void run_all(const bool T, const std::string& X) {
     {
         Blocks bl; bl.build(LATQ, 1);
         const long NDD = (long)D.size() * (long)D.size() * (long)TOL.size();
-        vf::info("api_param" + X + ".bound", vf::fmt("mock().expectOneCall(\"f\").withParameter(\"p\", a) then actualCall(\"f\").withParameter(\"p\", b), checkExpectations, in a real test: 36 integer type pairs x quick lattice^2 (%ld) and doubles a(value,tolerance) x b(value) (%ld); the test must pass iff the values are equal", bl.total(), NDD));
-        vf::section_index("api_param" + X, bl.total() + NDD, [&](long idx) {
-            bool isint = idx < bl.total();
+        const long NMW = (long)MW.size(), NMB = NMW * NMW + (long)malias.size();
+        vf::info("api_param" + X + ".bound", vf::fmt("mock().expectOneCall(\"f\").withParameter(\"p\", a) then actualCall(\"f\").withParameter(\"p\", b), checkExpectations, in a real test: 36 integer type pairs x quick lattice^2 (%ld), doubles a(value,tolerance) x b(value) (%ld), "
+                                                     "memory buffers: all %ld x %ld buffers of length <= 3 over {00,01,ff} in own blocks plus the %zu aliasing pairs of the membufs section (%ld); the test must pass iff the values are equal", bl.total(), NDD, NMW, NMW, malias.size(), NMB));
+        vf::section_index("api_param" + X, bl.total() + NDD + NMB, [&](long idx) {
+            const int kind = idx < bl.total() ? 0 : idx < bl.total() + NDD ? 1 : 2;
+            const bool isint = kind == 0;
             int ta = 0, tb = 0; i128 A = 0, B = 0; double a = 0, b = 0, tol = 0;
-            if (isint) bl.decode(idx, ta, tb, A, B);
-            else { vf::Radix r(idx - bl.total()); tol = TOL[r.take((long)TOL.size())]; a = D[r.take((long)D.size())]; b = D[r.take((long)D.size())]; }
+            std::string MA_, MB_; const unsigned char *pa = nullptr, *pb = nullptr; std::string mcls, mtxt;
+            if (kind == 0) bl.decode(idx, ta, tb, A, B);
+            else if (kind == 1) { vf::Radix r(idx - bl.total()); tol = TOL[r.take((long)TOL.size())]; a = D[r.take((long)D.size())]; b = D[r.take((long)D.size())]; }
+            else {
+                long k = idx - bl.total() - NDD;
+                if (k < NMW * NMW) { MA_ = MW[k / NMW]; MB_ = MW[k % NMW]; pa = mca[k / NMW]; pb = mcb[k % NMW]; mcls = "other-storage"; mtxt = "expected buffer " + hex(MA_) + ", actual buffer " + hex(MB_) + " (own blocks)"; }
+                else {
+                    const MA& m = malias[k - NMW * NMW];
+                    MA_ = MB4[m.blk].substr(m.oa, m.la); MB_ = MB4[m.blk].substr(m.ob, m.lb); pa = mb4[m.blk] + m.oa; pb = mb4[m.blk] + m.ob; mcls = alias_class(m);
+                    mtxt = "expected buffer " + hex(MA_) + vf::fmt("=blk+%d, actual buffer ", m.oa) + hex(MB_) + vf::fmt("=blk+%d of the same block ", m.ob) + hex(MB4[m.blk]);
+                }
+            }
             volatile bool completed = false;
             vf::Fixture fx;
             vf::ctx("expectOneCall/actualCall");
             fx.run([&] {
                        MockExpectedCall& e = mock().expectOneCall("f");
-                       if (isint) expect_with(e, ta, A); else e.withParameter("p", a, tol);
+                       if (kind == 0) expect_with(e, ta, A); else if (kind == 1) e.withParameter("p", a, tol); else e.withParameter("p", pa, MA_.size());
                        MockActualCall& c = mock().actualCall("f");
-                       if (isint) actual_with(c, tb, B); else c.withParameter("p", b);
+                       if (kind == 0) actual_with(c, tb, B); else if (kind == 1) c.withParameter("p", b); else c.withParameter("p", pb, MB_.size());
                        completed = true;
                    },
                    nullptr, [] { mock().checkExpectations(); mock().clear(); });
             vf::count("ops", 2);
             bool passed = fx.failures() == 0;
-            std::string txt = isint ? vf::fmt("expected %s %s, actual %s %s", KN[ta], s128(A).c_str(), KN[tb], s128(B).c_str())
-                                    : "expected double " + dstr(a) + " tolerance " + dstr(tol) + ", actual double " + dstr(b);
+            std::string txt = kind == 0 ? vf::fmt("expected %s %s, actual %s %s", KN[ta], s128(A).c_str(), KN[tb], s128(B).c_str())
+                            : kind == 1 ? "expected double " + dstr(a) + " tolerance " + dstr(tol) + ", actual double " + dstr(b) : mtxt;
             if (vf::want_sample()) vf::sample(txt + (passed ? " -> test passes" : " -> test fails"));
-            int want = isint ? (A == B ? 1 : 0) : want_double(a, b, tol);
+            int want = kind == 0 ? (A == B ? 1 : 0) : kind == 1 ? want_double(a, b, tol) : (MA_ == MB_ ? 1 : 0);
             if (passed && !completed) vf::fail("mockcall/left-test-without-failure", txt + ": the test body was left early but no failure was recorded");
             if (want >= 0 && (int)passed != want) {
-                std::string sig = std::string("mockcall/") + (isint ? "integers/" : "doubles/") + (want ? "equal-parameter-rejected" : "different-parameter-accepted");
+                std::string sig = std::string("mockcall/") + (kind == 0 ? "integers/" : kind == 1 ? "doubles/" : "buffers/") + (want ? "equal-parameter-rejected" : "different-parameter-accepted");
                 vf::fail(sig, txt + (passed ? ": the test passed" : ": the test failed") + vf::fmt(", expected %s", want ? "pass" : "fail"));
             }
             if (isint) {
                 bool alias = A != B && ((unsigned int)A == (unsigned int)B || (unsigned long long)A == (unsigned long long)B);
                 vf::outcome(vf::fmt("%s~%s %s -> %s", KN[ta], KN[tb], A == B ? "same" : alias ? "differ-alias" : "differ", passed ? "pass" : "fail"));
                 if (A == B || alias) vf::count("nontrivial");
-            } else {
+            } else if (kind == 1) {
                 vf::outcome(vf::fmt("double %s~%s oracle=%d -> %s", dclass(a), dclass(b), want, passed ? "pass" : "fail"));
                 if (std::isnan(a) || std::isnan(b) || std::isinf(a) || std::isinf(b) || (a != b && want >= 0)) vf::count("nontrivial");
+            } else {
+                bool prefix = !want && (MA_.compare(0, MB_.size(), MB_) == 0 || MB_.compare(0, MA_.size(), MA_) == 0);
+                vf::outcome(vf::fmt("buffer %s %s -> %s", mcls.c_str(), want ? "same-content" : prefix ? "prefix-other-length" : MA_.size() == MB_.size() ? "same-length" : "differ", passed ? "pass" : "fail"));
+                if ((want && pa != pb) || prefix || (!want && MA_.size() == MB_.size())) vf::count("nontrivial");
             }
         });
         vf::require_outcomes("api_param" + X, 80);
